@@ -341,3 +341,13 @@ def run(ck, facts):
     import c16
     c11.run(C.SubCheck(ck, "R7", "enum values seen by C are rustc's: discriminant inference, HIR copy and the C/C++ enum templates (rules of C11)", {"R3", "R4"}), facts)
     c16.run(C.SubCheck(ck, "R8", "slices and strings cross unchanged, NULL+0 is the empty slice: raw-parts reconstruction rules of the runtime views (rules of C16)", {"R1", "R2"}), facts)
+
+
+    # ---------------- R9 clauses shared with C05 and C06 (what C sees must be what the macro exports)
+    import c05
+    import c06
+    sub = C.SubCheck(ck, "R9", "the write parameter is accepted only in last position (the C header always appends it last; shares C05.R4) and every native symbol the C "
+                     "header declares is the recorded ABI name, destructors included (shares C06.R2/R3 for the C backend)", ["R4"], key_re=r"write-is-last")
+    c05.run(sub, facts)
+    sub2 = C.SubCheck(ck, "R9", "", ["R2", "R3"], key_re=r"^c::|^c/")
+    c06.run(sub2, facts)
